@@ -40,6 +40,7 @@ def instances (scenario : String) (n : Nat) : List Instance :=
   | "prep-first-prove" => [cacheI "nonrevCache" (fun t => if t % 2 = 1 then 2 else 0), handoff, rnd, sacc, cprng]
   | "prep-repeat-prove" => [cacheI "nonrevCache" (fun t => t % 2), handoff, rnd, sacc, cprng]
   | "prep-refresh-prove" => [cacheI "nonrevCache" (fun t => t % 2), handoff, rnd, sacc, cprng]
+  | "consume-burst" => [cacheI "nonrevCache" (fun _ => 0), handoff, cprng]
   | "prove-shared" => [cacheI "nonrevCache" (fun _ => 0), rnd, sacc, cprng]
   | "prove-range" => [cprng]   -- provers sharing a credential read-only; the square splitter keeps no shared state
   | "verify-shared" => [sacc, rnd, cprng]
